@@ -333,10 +333,18 @@ func signature(metric labels.Labels, without bool, grouping []string, keepOrigin
 func buildOutputSeries(seriesID uint64, highCardSeries, lowCardSeries model.Series, includeLabels []string) model.Series {
 	metric := highCardSeries.Metric
 	if len(includeLabels) > 0 {
-		lowCardLabels := labels.NewBuilder(lowCardSeries.Metric).
-			Keep(includeLabels...).
-			Labels(nil)
-		metric = append(metric, lowCardLabels...)
+		// Included labels take the value of the "one" side and are removed if
+		// that side does not have them, as in the Prometheus engine. The builder
+		// returns a sorted label set without duplicates.
+		lb := labels.NewBuilder(metric)
+		for _, name := range includeLabels {
+			if v := lowCardSeries.Metric.Get(name); v != "" {
+				lb.Set(name, v)
+			} else {
+				lb.Del(name)
+			}
+		}
+		metric = lb.Labels(nil)
 	}
 	return model.Series{ID: seriesID, Metric: metric}
 }
